@@ -229,7 +229,6 @@ func driveIterMap(opt *Options) error {
 	return nil
 }
 
-
 // driveIterMapLarge: one history on a map that grows beyond a thousand entries and is drained again
 // while iterators are parked on removed entries (growth / shrink paths of the implementation).
 func driveIterMapLarge(tw *TraceWriter, rnd *rand.Rand) {
